@@ -64,8 +64,12 @@ impl CsrSegment {
         }
 
         let idx = (dst - self.min_dst) as usize;
-        let start = self.in_offsets[idx] as usize;
-        let end = self.in_offsets[idx + 1] as usize;
+        // A segment without a reverse index (e.g. an edge-free segment) has no incoming edges.
+        let (Some(&start), Some(&end)) = (self.in_offsets.get(idx), self.in_offsets.get(idx + 1))
+        else {
+            return Box::new(std::iter::empty());
+        };
+        let (start, end) = (start as usize, end as usize);
 
         Box::new(
             self.in_edges[start..end]
